@@ -104,4 +104,14 @@ SameData(a,b) == /\ a.mt = b.mt
                  /\ (a.mt \in {2,3} => a.str = b.str)
                  /\ Len(a.kids) = Len(b.kids)
                  /\ \A j \in 1..Len(a.kids) : SameData(a.kids[j], b.kids[j])
+\* the same, but map entries may come in another order (content of a value whose maps were not filled in ascending order)
+RECURSIVE SameContent(_,_)
+SameContent(a,b) == /\ a.mt = b.mt
+                    /\ (a.mt \in {0,1,6,7} => ArgN(a) = ArgN(b))
+                    /\ (a.mt \in {2,3} => a.str = b.str)
+                    /\ Len(a.kids) = Len(b.kids)
+                    /\ IF a.mt # 5 THEN \A j \in 1..Len(a.kids) : SameContent(a.kids[j], b.kids[j])
+                       ELSE LET n == Len(a.kids) \div 2 IN
+                            /\ \A i \in 1..n : \E j \in 1..n : SameContent(a.kids[2*i-1], b.kids[2*j-1]) /\ SameContent(a.kids[2*i], b.kids[2*j])
+                            /\ \A j \in 1..n : \E i \in 1..n : SameContent(a.kids[2*i-1], b.kids[2*j-1]) /\ SameContent(a.kids[2*i], b.kids[2*j])
 ====
